@@ -19,7 +19,7 @@ def units_for(file):
 res={}
 for p in sorted(glob.glob(V+'/notes/benign/b*.patch')):
     n=os.path.basename(p)[:-6]
-    pass
+    if sys.argv[1:] and n not in sys.argv[1:]: continue
     meta=json.load(open(p[:-6]+'.json'))
     us=units_for(meta['file'])
     subprocess.run(['rm','-rf','/tmp/bq']); os.makedirs('/tmp/bq')
@@ -32,4 +32,8 @@ for p in sorted(glob.glob(V+'/notes/benign/b*.patch')):
     bad=[l[:260] for l in lines if ' ok ' not in l]
     res[n]={'file':meta['file'],'function':meta['function'],'units':len(us),'not_ok':bad}
     print(n, meta['function'][:50], 'units=%d'%len(us), 'ALL-OK' if not bad else bad, flush=True)
-json.dump(res,open('/verif/notes/benign_units_results.json','w'),indent=1)
+prev={}
+try: prev=json.load(open('/verif/notes/benign_units_results.json'))
+except Exception: pass
+prev.update(res)
+json.dump(prev,open('/verif/notes/benign_units_results.json','w'),indent=1)
